@@ -9,7 +9,7 @@ import math
 
 import numpy as np
 
-from vlib import gen, refmodel
+from vlib import gen, kernelx, refmodel
 from vlib.choice_rng import ChoiceModelError, explore
 
 
@@ -214,6 +214,7 @@ def pass_order_task(task):
         for f in forests:
             def once(rng):
                 clear_proposal_dist_caches()
+                kernelx.cold_array_caches()
                 tree, _ = gen.build_tree(f, data)
                 move, _k = kernelx.make_move(cfg, rng, td)
                 try:
